@@ -169,9 +169,24 @@ def canon_param(v):
         return {'$obj': [cname, kw]}
     if isinstance(v, list):
         return [canon_param(x) for x in v]
+    if isinstance(v, dict) and '$intkeys' in v:
+        return {'$ik': sorted([k, canon_param(x)] for k, x in v['$intkeys'])}
+    if isinstance(v, dict) and v and all(type(k) is int for k in v):
+        return {'$ik': sorted([k, canon_param(x)] for k, x in v.items())}
     if isinstance(v, dict):
         return {'$d': {k: canon_param(x) for k, x in v.items()}}
     return V.canon_json(v)
+
+
+def decode_value(v):
+    """scenario (JSON) form of a parameter value -> the python value handed to taskchain"""
+    if isinstance(v, dict) and '$intkeys' in v:
+        return {k: decode_value(x) for k, x in v['$intkeys']}
+    if isinstance(v, dict):
+        return {k: decode_value(x) for k, x in v.items()}
+    if isinstance(v, list):
+        return [decode_value(x) for x in v]
+    return v
 
 
 def _pcanon(params):
